@@ -530,9 +530,39 @@ def r7_skip_conditions(ctx):
     ctx.floor('C08.R7', 'skip-deciding branches in the roster checkers', n, 60)
 
 
+def r8_framework_item_lookup_is_exact(ctx):
+    ctx.rule('C08.R8', 'P7: `FrameworkItemDb::get_id` is the test by which detect_missing_constructors (and the `&mut` checks that follow it) '
+             'decides that an input is provided by the framework and needs no examination. It answers for the type it was given: the key of its one '
+             'table lookup is the parameter itself — not the referent of a reference, not a canonicalised form, no second lookup by scan — so '
+             '`&mut ConnectionInfo` is not mistaken for the framework item `ConnectionInfo` and skipped.')
+    FI = A + 'framework_items::FrameworkItemDb::get_id'
+    b = ctx.need('C08.R8', 'FrameworkItemDb::get_id', ctx.fb.body('pavexc', FI))
+    if b is None:
+        return
+    defs = Defs(b)
+    looks = [(bb, t) for bb, t in b.calls() if (callee(t) or '').split('::')[-1] in ('get_by_left', 'get', 'get_by_right', 'contains_left', 'find', 'find_map', 'position', 'any', 'iter')
+             and t['aty'] and any(k in t['aty'][0] for k in ('BiHashMap', 'HashMap', 'BTreeMap', 'IndexMap', 'Iter'))]
+    exact = [(bb, t) for bb, t in looks if callee(t).split('::')[-1] in ('get_by_left', 'get')]
+    ok_one = len(looks) == 1 and len(exact) == 1
+    key_ok = False
+    detail = 'lookups: %s' % [callee(t).split('::')[-1] for _, t in looks]
+    if exact:
+        bb, t = exact[0]
+        pl = op_place(t['args'][1])
+        sl, locs = backward_slice(b, pl['l'], defs) if pl else ([], set())
+        calls = [c for c, _, _ in slice_calls(sl)]
+        through = sorted({e for _, _, n in sl for q in ([n['rv'].get('pl')] if 'rv' in n and n['rv']['k'] == 'ref' else
+                                                         ([op_place(n['rv']['op'])] if 'rv' in n and n['rv']['k'] == 'use' else []))
+                          if q for e in q.get('p', []) if e.startswith('d:')})
+        key_ok = 2 in locs and not calls and not through
+        detail += '; the key derives from the parameter: %s, through calls %s, through payloads of %s' % (2 in locs, calls or 'none', through or 'none')
+    ctx.ob('C08.R8', 'exact-lookup', ok_one and key_ok, b.loc(exact[0][0]) if exact else b.loc(), detail)
+
+
 def check(ctx):
     r1_roster_on_the_way(ctx)
     r2_reports_errors(ctx)
     r3_gated(ctx)
     r6_whole_domain(ctx)
     r7_skip_conditions(ctx)
+    r8_framework_item_lookup_is_exact(ctx)
